@@ -565,6 +565,139 @@ theorem walk_func_frames_follow_c11W (arch : Walk.Arch) (os : Walk.Os) (w : Walk
     exact ⟨i, m, sf, csf, fr, hmod, hm, hsf, hb, hfr, this.symm⟩
   · cases h2
 
+/-! ## 4. the by-symbols validation of scanned return addresses, through C11 -/
+
+/-- what C11's `fill_symbol` must report for a scanned word to pass
+    `instruction_seems_valid_by_symbols` (minidump-unwind/src/lib.rs:825-906): a function with a
+    non-empty name (`DummyFrame::set_function`: `has_name = !name.is_empty()`) -/
+def C11Named (fr : Symbolize.Frame) : Prop := ∃ n b p, fr.fn = some (n, b, p) ∧ n ≠ []
+
+/-- the function tables `mkEnv` / `mkEnvW` hand to `instrOkOf` -/
+def ftblsOf (w : Walk.World) : List (List Entry) :=
+  w.syms.map fun s => match s with
+    | some sf => Walk.funcTable sf
+    | none => []
+
+/-- the scan validation of both environments is `instrOkOf` over the modules' own function tables -/
+theorem mkEnv_instrOk (arch : Walk.Arch) (os : Walk.Os) (w : Walk.World) (wins : List (List Win.Rec))
+    (mem0 : Walk.Mem) :
+    (Walk.mkEnv arch os w mem0).instrOk = Walk.instrOkOf w (Walk.modTable w.mods) (ftblsOf w) ∧
+    (Walk.mkEnvW arch os w wins mem0).instrOk = Walk.instrOkOf w (Walk.modTable w.mods) (ftblsOf w) :=
+  ⟨rfl, rfl⟩
+
+theorem nm_empty : nm "" = [] := by decide
+
+/-- **`instr_ok_follows_c11`** — the by-symbols validation of a scanned word `ip` (the walker model's
+    `instrOkOf`, used by `mkEnv` and `mkEnvW` for every scan candidate), stated through C11's
+    `fill_symbol`. With `a = ip - 1` (`saturating_sub(1)`):
+    * a word is accepted only if `a ≠ 0` and a module of the list covers `a`;
+    * if that module has no symbol file, the word is accepted;
+    * if it has the symbol file `sf`, the word is accepted IFF C11's `fill_symbol` — on ANY C11
+      record list describing `sf`'s FUNC / PUBLIC records (any sub-records, any STACK WIN records),
+      at the module's base and `a` — reports a function with a non-empty name (`C11Named`).
+    So C11's `func_covers` / `public_rule` say exactly which scanned words pass: those for which a
+    FUNC of the table contains `a - base`, or the nearest preceding PUBLIC is not cut off by a
+    FUNC — with a non-empty name. -/
+theorem instr_ok_follows_c11 (w : Walk.World) (ip : Nat) :
+    (Walk.instrOkOf w (Walk.modTable w.mods) (ftblsOf w) ip = true →
+      ip - 1 ≠ 0 ∧ ∃ i m, Walk.moduleAt (Walk.modTable w.mods) (ip - 1) = some i ∧
+        w.mods[i]? = some m ∧ m.base ≤ ip - 1 ∧ ip - 1 < m.base + m.size) ∧
+    (∀ i, ip - 1 ≠ 0 → Walk.moduleAt (Walk.modTable w.mods) (ip - 1) = some i →
+      ((w.syms[i]?).join = none → Walk.instrOkOf w (Walk.modTable w.mods) (ftblsOf w) ip = true) ∧
+      (∀ m sf, w.mods[i]? = some m → w.syms[i]? = some (some sf) →
+        ∀ (r : Symbolize.Recs) (csf : Symbolize.SymFile) (fr : Symbolize.Frame),
+          FileRel sf r → Symbolize.build r = .ok csf →
+          Symbolize.fillSymbol csf m.base (ip - 1) = .ok fr →
+          (Walk.instrOkOf w (Walk.modTable w.mods) (ftblsOf w) ip = true ↔ C11Named fr))) := by
+  constructor
+  · intro h
+    unfold Walk.instrOkOf at h
+    simp only at h
+    by_cases h0 : ip - 1 = 0
+    · rw [if_pos h0] at h; cases h
+    · refine ⟨h0, ?_⟩
+      rw [if_neg h0] at h
+      cases hma : Walk.moduleAt (Walk.modTable w.mods) (ip - 1) with
+      | none => rw [hma] at h; cases h
+      | some i =>
+        obtain ⟨m, hm, h1, h2⟩ := Walk.moduleAt_sound _ _ _ hma
+        exact ⟨i, m, rfl, hm, h1, h2⟩
+  · intro i h0 hma
+    obtain ⟨m, hm, _, _⟩ := Walk.moduleAt_sound _ _ _ hma
+    constructor
+    · intro hj
+      unfold Walk.instrOkOf
+      simp only [if_neg h0, hma, hm, hj]
+    · intro m' sf hm' hsf r csf fr hrel hb hfr
+      rw [hm] at hm'
+      cases hm'
+      have hname := walk_fill_name_base_eq_c11 hrel hb hfr
+      unfold Walk.instrOkOf ftblsOf
+      simp only [if_neg h0, hma, hm, hsf, Option.join_some, List.getElem?_map, Option.map_some]
+      cases hw : Walk.fillSymbol sf (Walk.funcTable sf) m.base (ip - 1) with
+      | none =>
+        rw [hw] at hname
+        simp only [Option.map_none] at hname
+        constructor
+        · intro h; cases h
+        · rintro ⟨n, b, p, hfn, _⟩
+          rw [hfn] at hname; cases hname
+      | some g =>
+        rw [hw] at hname
+        simp only [Option.map_some] at hname
+        simp only [decide_eq_true_eq]
+        constructor
+        · intro hne
+          cases hfn : fr.fn with
+          | none => rw [hfn] at hname; cases hname
+          | some t =>
+            obtain ⟨n, b, p⟩ := t
+            rw [hfn] at hname
+            simp only [Option.map_some, Option.some.injEq, Prod.mk.injEq] at hname
+            refine ⟨n, b, p, hfn, ?_⟩
+            rw [← hname.1, ← nm_empty]
+            exact fun e => hne (nm_inj e)
+        · rintro ⟨n, b, p, hfn, hn⟩ he
+          rw [hfn] at hname
+          simp only [Option.map_some, Option.some.injEq, Prod.mk.injEq] at hname
+          rw [he, nm_empty] at hname
+          exact hn hname.1.symm
+
+/-- an accepted scanned word in a module with symbols, in C11's terms (`func_covers` through the
+    bridge): `ip - 1` lies in a FUNC record of the file with a valid range (its name non-empty), or
+    no FUNC of the table contains it and a PUBLIC with a non-empty name lies at or below it -/
+theorem instr_ok_covered (w : Walk.World) (ip i : Nat) (m : Walk.Module) (sf : Walk.SymFile)
+    (hip : ip - 1 ≤ U64MAX)
+    (hok : Walk.instrOkOf w (Walk.modTable w.mods) (ftblsOf w) ip = true)
+    (hma : Walk.moduleAt (Walk.modTable w.mods) (ip - 1) = some i)
+    (hm : w.mods[i]? = some m) (hsf : w.syms[i]? = some (some sf)) :
+    m.base ≤ ip - 1 ∧
+    ((∃ f ∈ sf.funcs, f.name ≠ "" ∧ 0 < f.size ∧ f.addr + f.size ≤ U64MAX ∧
+        f.addr ≤ ip - 1 - m.base ∧ ip - 1 - m.base < f.addr + f.size) ∨
+     (RangeMap.get (Walk.funcTable sf) (ip - 1 - m.base) = none ∧
+        ∃ p ∈ sf.pubs, p.name ≠ "" ∧ p.addr ≤ ip - 1 - m.base)) := by
+  obtain ⟨h0, _⟩ := (instr_ok_follows_c11 w ip).1 hok
+  obtain ⟨csf, fr, hb, hfr⟩ := c11_answers sf m.base (ip - 1) hip
+  have hnamed := ((((instr_ok_follows_c11 w ip).2 i h0 hma).2 m sf hm hsf _ csf fr
+    (recsOf_rel sf) hb hfr).mp hok)
+  obtain ⟨n, b, p, hfn, hn⟩ := hnamed
+  have heq := walk_fill_eq_c11 (recsOf_rel sf) rfl rfl hb hfr
+  rw [hfn] at heq
+  cases hw : Walk.fillSymbol sf (Walk.funcTable sf) m.base (ip - 1) with
+  | none => rw [hw] at heq; cases heq
+  | some g =>
+    rw [hw] at heq
+    simp only [Option.map_some, projW, Option.some.injEq, Prod.mk.injEq] at heq
+    have hgn : g.name ≠ "" := by
+      intro e
+      rw [e, nm_empty] at heq
+      exact hn heq.1.symm
+    obtain ⟨hge, hc⟩ := walk_func_covers sf m.base (ip - 1) hip hw
+    refine ⟨hge, ?_⟩
+    rcases hc with ⟨f, hf, c1, _, c3, c4, c5, c6⟩ | ⟨hnone, q, hq, c1, _, _, c4⟩
+    · exact .inl ⟨f, hf, by rw [← c1]; exact hgn, c3, c4, c5, c6⟩
+    · exact .inr ⟨hnone, q, hq, by rw [← c1]; exact hgn, c4⟩
+
 /-! ## non-vacuity: a concrete file, both models computed -/
 
 /-- `FUNC 10 20 4 f`, `PUBLIC 8 0 p`, `PUBLIC 40 8 q` (hex) -/
